@@ -78,8 +78,42 @@ def check_unrestricted():
     return None
 
 
+def check_ts_invariant():
+    """class invariant used as a precondition by the negotiation contracts: '' is never in _transfer_syntax"""
+    for held in ([], [TS[0]], [TS[0], TS[1]]):
+        for arg in ("", b"", TS[2], TS[0], None, 17):
+            c = PresentationContext()
+            c.transfer_syntax = list(held)
+            before = list(c.transfer_syntax)
+            try:
+                c.add_transfer_syntax(arg)
+            except Exception as e:            # noqa: BLE001
+                after = list(c._transfer_syntax)
+                if "" in after:
+                    return dict(input={"held": held, "argument": repr(arg)}, observed=f"{e!r}; list {after}", expected="no empty UID in the list")
+                continue
+            after = list(c._transfer_syntax)
+            if "" in after:
+                return dict(input={"held": held, "argument": repr(arg)}, observed={"_transfer_syntax": [str(x) for x in after]},
+                            expected="no empty UID in the list")
+        c = PresentationContext()
+        try:
+            c.transfer_syntax = list(held) + [""]
+        except ValueError:
+            pass
+        if "" in c._transfer_syntax:
+            return dict(input={"transfer_syntax setter": held + [""]}, observed={"_transfer_syntax": [str(x) for x in c._transfer_syntax]},
+                        expected="no empty UID in the list")
+    return None
+
+
 def main():
     rec = load() if len(sys.argv) > 1 and sys.argv[1] != "--all" else {"id": "all"}
+    if "add_transfer_syntax" in rec["id"]:
+        b = check_ts_invariant()
+        if b:
+            done(True, **b)
+        done(False, note="add_transfer_syntax never puts the empty UID into the list on the replay cases")
     if "negotiate_unrestricted" in rec["id"]:
         b = check_unrestricted()
         if b:
